@@ -13,7 +13,7 @@ From Coq Require Import ZifyN ZifyNat ZifyBool.
 Import ListNotations.
 Local Open Scope N_scope.
 
-Ltac Zify.zify_post_hook ::= Z.div_mod_to_equations.
+#[local] Ltac Zify.zify_post_hook ::= Z.div_mod_to_equations.
 
 (* ------------------------------------------------------------------ *)
 (** * Bytes *)
